@@ -323,7 +323,9 @@ def r7_canonical_order_compare(ctx, F):
         if c.bb in f.cleanup or not re.search(r"ops::Fn(Mut|Once)?::call(_mut|_once)?$", c.name) or len(c.args) < 2:
             continue
         who = {o[1] for o in origins(f, c.args[0], pass_calls=None) if o[0] == "param"}
-        if "_4" not in who:  # the value comparator is the 4th parameter; `key` (3rd) is applied to keys
+        # the value comparator is the parameter of type `impl Fn(&V1, &V2) -> Result<Ordering, _>`
+        # (`key`, applied to keys, returns K2)
+        if not any(re.search(r"Fn\(&V1, &V2\)|-> Result<(std::cmp::)?Ordering", f.locals.get(p, "")) for p in who):
             continue
         n += 1
         srcs = set()
